@@ -761,7 +761,13 @@ class DataReference(object):
         # type: (DataReference, WorkflowGraph) -> str
 
         try:
-            producer_node = workflowGraph.graph.nodes[self.producerIdentifier.identifier]
+            producer_identifier = self.producerIdentifier.identifier
+
+            # VV: A reference to a looped component points to the latest iteration of the component
+            if producer_identifier in workflowGraph._placeholders:
+                producer_identifier = workflowGraph._placeholders[producer_identifier]['latest']
+
+            producer_node = workflowGraph.graph.nodes[producer_identifier]
             try:
                 if self.fileRef is None and self.method == DataReference.Output:
                     specification = producer_node['componentSpecification']  # type: ComponentSpecification
